@@ -13,6 +13,14 @@ package main
 // case   {"kind":"tag","seqs":[query, ref1, ref2, ..]}  ->  {"kind":"tag","r":[[j,maxe,s,l,d],..]}
 //          the candidate loop of obitag.FindClosests (without the 4-mer pruning): maxe starts at -1 and shrinks to the
 //          best score seen; D1Or0 when maxe is 0 or 1 (then s = l = -2), else FastLCSScore(query, ref, maxe, &matrix)
+// case   {"kind":"byte","ba":[bytes],"bb":[bytes],"ms":[bounds],"bufs":[{"len":k,"cap":n,"pat":[words]},..]}
+//          ->  {"kind":"byte","r":[[m, egf(0/1), buffer index (-1 = nil), s, l, e],..]}
+//          FastLCSEGFScoreByte called DIRECTLY on raw bytes (any byte value, upper / mixed case: BioSequence lower-cases
+//          its sequence, so the case folding of _samenuc is reachable only here), both modes, with a nil buffer and with
+//          every described scratch buffer: make([]uint64, len, cap) whose whole capacity is filled with the words of
+//          "pat" repeated (stale content chosen by the generator: zeros, all-ones, the largest in-band word, ...).
+// case   {"kind":"words","ws":[words]}  ->  {"kind":"words","r":[[word, score, length, out, _isout, _lpath],..]}
+//          decodeValues and the two accessors _isout / _lpath (no caller in the code base) on the given words
 // case   {"a": "...", "b": "...", "ms": [bounds], "dump": bool}
 // answer {"r": [[m, s,l, s',l', es,el,ee, es',el',ee'], ...], "d": [d,pos,a1,a2], "pre": [[...],[...]]...}
 //   unprimed = fresh scratch buffer (nil), primed = one scratch buffer shared by every call of the process
@@ -39,6 +47,77 @@ type c09case struct {
 	B     string   `json:"b"`
 	Ms    []int    `json:"ms"`
 	Dump  bool     `json:"dump"`
+	BA    []int    `json:"ba"`
+	BB    []int    `json:"bb"`
+	Bufs  []c09buf `json:"bufs"`
+	Ws    []uint64 `json:"ws"`
+}
+
+type c09buf struct {
+	Len int      `json:"len"`
+	Cap int      `json:"cap"`
+	Pat []uint64 `json:"pat"`
+}
+
+type c09words struct {
+	Kind string     `json:"kind"`
+	R    [][]uint64 `json:"r"`
+}
+
+func c09byteCase(c c09case) c09run {
+	o := c09run{Kind: "byte", R: [][]int{}}
+	ba := make([]byte, len(c.BA))
+	for i, x := range c.BA {
+		ba[i] = byte(x)
+	}
+	bb := make([]byte, len(c.BB))
+	for i, x := range c.BB {
+		bb[i] = byte(x)
+	}
+	call := func(m int, egf bool, buf *[]uint64) (s, l, e int) {
+		defer func() {
+			if r := recover(); r != nil {
+				s, l, e = -99, -99, -99
+			}
+		}()
+		return obialign.FastLCSEGFScoreByte(ba, bb, m, egf, buf)
+	}
+	for _, m := range c.Ms {
+		for ie, egf := range []bool{false, true} {
+			s, l, e := call(m, egf, nil)
+			o.R = append(o.R, []int{m, ie, -1, s, l, e})
+			for k, spec := range c.Bufs {
+				if spec.Cap < spec.Len {
+					spec.Cap = spec.Len
+				}
+				buf := make([]uint64, spec.Cap)
+				if len(spec.Pat) > 0 {
+					for i := range buf {
+						buf[i] = spec.Pat[i%len(spec.Pat)]
+					}
+				}
+				buf = buf[:spec.Len]
+				s, l, e := call(m, egf, &buf)
+				o.R = append(o.R, []int{m, ie, k, s, l, e})
+			}
+		}
+	}
+	return o
+}
+
+func c09wordsCase(c c09case) c09words {
+	o := c09words{Kind: "words", R: [][]uint64{}}
+	for _, w := range c.Ws {
+		s, l, out := obialign.VerifC09Decode(w)
+		b2u := func(b bool) uint64 {
+			if b {
+				return 1
+			}
+			return 0
+		}
+		o.R = append(o.R, []uint64{w, uint64(s), uint64(l), b2u(out), b2u(obialign.VerifC09IsOut(w)), uint64(obialign.VerifC09LPath(w))})
+	}
+	return o
 }
 
 type c09obs struct {
@@ -57,6 +136,7 @@ type c09tables struct {
 	Notavail uint64     `json:"notavail"`
 	Enc      [][]uint64 `json:"enc"`
 	Dec      [][]uint64 `json:"dec"`
+	Acc      [][]uint64 `json:"acc"`
 }
 
 type c09run struct {
@@ -82,6 +162,9 @@ func c09dumpTables() c09tables {
 			t.Enc = append(t.Enc, []uint64{uint64(sl[0]), uint64(sl[1]), b2u(o), w})
 			s, l, oo := obialign.VerifC09Decode(w - 1)
 			t.Dec = append(t.Dec, []uint64{w - 1, uint64(s), uint64(l), b2u(oo)})
+			for _, v := range []uint64{w, w - 1, ^w} {
+				t.Acc = append(t.Acc, []uint64{v, b2u(obialign.VerifC09IsOut(v)), uint64(obialign.VerifC09LPath(v))})
+			}
 		}
 	}
 	return t
@@ -227,6 +310,10 @@ func init() {
 				return c09d1All(c)
 			case "tag":
 				return c09tag(c)
+			case "byte":
+				return c09byteCase(c)
+			case "words":
+				return c09wordsCase(c)
 			}
 			sa := obiseq.NewBioSequence("a", []byte(c.A), "")
 			sb := obiseq.NewBioSequence("b", []byte(c.B), "")
